@@ -439,6 +439,8 @@ impl<'a> Runner<'a> {
                         json!({"k": "DownlinkReceived", "v": 0, "cnt": [f >> 16, f & 0xffff]})
                     }
                     Ok(Some(Ok(async_device::ListenResponse::SessionExpired))) => resp_json("SessionExpired", 0),
+                    #[cfg(feature = "mc")]
+                    Ok(Some(Ok(async_device::ListenResponse::Multicast(m)))) => json!({"k": "Multicast", "v": 0, "s": format!("{m:?}")}),
                     Ok(Some(Err(async_device::Error::Radio(_)))) => resp_json("ErrRadio", 0),
                     Ok(Some(Err(async_device::Error::Mac(_)))) => resp_json("ErrMac", 0),
                     Ok(None) => resp_json("Pending", 0),
@@ -507,6 +509,8 @@ impl<'a> Runner<'a> {
                             Ok(async_device::SendResponse::SessionExpired) => resp_json("SessionExpired", 0),
                             Ok(async_device::SendResponse::NoAck) => resp_json("NoAck", 0),
                             Ok(async_device::SendResponse::RxComplete) => resp_json("RxComplete", 0),
+                            #[cfg(feature = "mc")]
+                            Ok(async_device::SendResponse::Multicast(m)) => json!({"k": "Multicast", "v": 0, "s": format!("{m:?}")}),
                             Err(async_device::Error::Radio(_)) => resp_json("ErrRadio", 0),
                             Err(async_device::Error::Mac(_)) => resp_json("ErrMac", 0),
                         })
@@ -767,13 +771,15 @@ fn run_typed<const P: u8, const G: i8>(out: &mut TraceWriter, ops: &[Op], seed: 
         if *classc {
             d.enable_class_c();
         }
+        #[cfg(feature = "mc")]
+        d.set_multicast_ke_key_from_gen_app_key(lorawan::keys::GenAppKey::from([9u8; 16]));
         Dev::As(Box::new(d))
     };
     let mut r = Runner { out, env, seq: 0, hist: 0 };
     let ev = json!({"ev": "reset", "region": region, "front": front, "classc": *classc as u8,
         "maxpw": P, "gain": G, "board": board, "bias_sb": bias_sb, "bias_retries": bias_retries,
         "lead": lead, "buffer": buffer, "offset": offset, "duration": duration,
-        "seeded": session.is_some() as u8, "cert": cfg!(feature = "cert") as u8});
+        "seeded": session.is_some() as u8, "cert": cfg!(feature = "cert") as u8, "mc": cfg!(feature = "mc") as u8});
     r.emit(&mut dev, ev, Some(&ops[0]));
     let mut executed: Vec<Op> = vec![ops[0].clone()];
     let mut steps = 0usize;
@@ -2065,6 +2071,91 @@ pub fn vh_certwalk(a: &Args) {
                             plan.rx1.push(Frame { bytes: b, snr: 3, intent: "cert:power+override".into() });
                         }
                         if idx == 2 {
+                            if variant == 2 {
+                                return Some(Op::Rxc { frames: vec![f] });
+                            }
+                            if h % 2 == 0 { plan.rx1.push(f) } else { plan.rx2.push(f) }
+                        }
+                        Some(Op::Send { port: 1, data: vec![7], confirmed: idx == 3, draws: vec![], plan })
+                    };
+                    let _ = run_history(out.shard(h), &ops, a.seed ^ h as u64, Some(&mut g));
+                    h += 1;
+                }
+            }
+        }
+    }
+    println!("events={} histories={h}", out.finish());
+}
+
+/// `vh mcwalk` (multicast build only): remote multicast setup commands (TS005, FPort 200), well-formed, malformed
+/// and repeated until their answers exceed any buffer, as the payload of an authentic downlink in RX1 / RX2 (and,
+/// Class C, outside a procedure), followed by further uplinks; async front-end (the nb front-end has no way to
+/// install the multicast key).
+pub fn vh_mcwalk(a: &Args) {
+    let regions: Vec<String> = a.get("regions").unwrap_or("EU868").split(',').map(|s| s.to_string()).collect();
+    let setup: Vec<u8> = {
+        // McGroupSetupReq: id | McAddr(4) | McKey_encrypted(16) | minMcFCount(4) | maxMcFCount(4)
+        let mut v = vec![0x02u8, 0x01, 0x11, 0x22, 0x33, 0x44];
+        v.extend([0x5au8; 16]);
+        v.extend([0, 0, 0, 0, 0xff, 0xff, 0, 0]);
+        v
+    };
+    let mut payloads: Vec<Vec<u8>> = vec![
+        vec![], vec![0x00], vec![0x01], vec![0x01, 0x0f], vec![0x01, 0xff], vec![0x02], setup.clone(),
+        vec![0x03], vec![0x03, 0x00], vec![0x03, 0x03], vec![0x03, 0xff],
+        vec![0x04], vec![0x04, 0, 0, 0, 0, 0, 0, 0, 0, 0, 0], vec![0x05, 0, 0, 0, 0, 0, 0, 0, 0, 0, 0],
+        vec![0x06], vec![0x7f], vec![0xff], vec![0x00, 0x00], vec![0x00, 0x01, 0x0f],
+    ];
+    // the same command many times in one frame
+    for n in [10usize, 40, 80, 86, 100, 200, 242] {
+        payloads.push(vec![0x00; n]);
+    }
+    for n in [5usize, 20, 60, 121] {
+        payloads.push([0x01u8, 0x0f].repeat(n));
+        payloads.push([0x03u8, 0x02].repeat(n));
+    }
+    {
+        let mut v = setup.clone();
+        v.extend(setup.iter().copied().map(|b| b)); // two groups
+        v[30] = 0x02;
+        payloads.push(v.clone());
+        let mut w = vec![];
+        for g in 0..4u8 {
+            let mut s1 = setup.clone();
+            s1[1] = g;
+            s1[2] = 0x10 + g;
+            w.extend(s1);
+        }
+        w.extend([0x01, 0x0f]);
+        payloads.push(w);
+    }
+    let mut out = crate::cli::Shards::create(&a.out, "mac", a.shards);
+    let key = [1u8; 16];
+    let addr = [1u8, 2, 3, 4];
+    let mut h = 0usize;
+    for region in &regions {
+        for classc in [false, true] {
+            for (pi, pl) in payloads.iter().enumerate() {
+                for variant in 0..(if classc { 3 } else { 2 }) {
+                    let ops = vec![
+                        Op::Reset { region: region.clone(), front: "async".into(), classc, board: 0, bias_sb: 0, bias_retries: 1,
+                                    lead: 10, buffer: 10, offset: 0, duration: 500, session: None },
+                        Op::JoinAbp { nwk: key, app: key, addr },
+                        Op::SetDr { dr: if region == "US915" { 4 } else { 5 } },
+                    ];
+                    let mut idx = 0usize;
+                    let pl = pl.clone();
+                    let mut g = |view: &View| -> Option<Op> {
+                        idx += 1;
+                        if idx > 5 {
+                            return None;
+                        }
+                        let mut plan = Proc { tx: "done".into(), ts: 100, fault: -1, ..Default::default() };
+                        let (nwk, app, ad) = view.keys.unwrap_or((key, key, addr));
+                        let net = Net { nwk, app, addr: ad, sent: vec![] };
+                        let n = view.fcnt_down.map(|x| x + 1).unwrap_or(0);
+                        let f = Frame { bytes: net.data(n, variant == 1, false, &[], 200, &pl, false, false), snr: 3, intent: format!("mc:{pi}") };
+                        if idx == 2 || idx == 4 {
                             if variant == 2 {
                                 return Some(Op::Rxc { frames: vec![f] });
                             }
